@@ -55,4 +55,128 @@ theorem binCmp_fuel : ∀ (f f' n m : Nat), n < f → n < f' → binCmp f n m = 
 theorem baseCmp_swap (a b : IExp) : (baseCmp a b).swap = baseCmp b a := by
   cases a <;> cases b <;> simp only [baseCmp, ordThen_swap, natCompare_swap]
 
+theorem numCmp_swap (n m : Nat) : (numCmp n m).swap = numCmp m n := by
+  unfold numCmp
+  by_cases hs : numSize n = numSize m
+  · rw [if_neg (show ¬ (numSize n ≠ numSize m) from fun h => h hs),
+      if_neg (show ¬ (numSize m ≠ numSize n) from fun h => h hs.symm)]
+    by_cases h1 : n < 2 <;> by_cases h2 : m < 2
+    · rw [if_pos (show (decide (n < 2) && decide (m < 2)) = true by simp [h1, h2]),
+        if_pos (show (decide (m < 2) && decide (n < 2)) = true by simp [h1, h2]), natCompare_swap]
+    · rw [if_neg (show ¬ (decide (n < 2) && decide (m < 2)) = true by simp [h2]),
+        if_neg (show ¬ (decide (m < 2) && decide (n < 2)) = true by simp [h2]),
+        binCmp_fuel (n + 1) (n + m + 2) n m (by omega) (by omega),
+        binCmp_fuel (m + 1) (n + m + 2) m n (by omega) (by omega), binCmp_swap]
+    · rw [if_neg (show ¬ (decide (n < 2) && decide (m < 2)) = true by simp [h1]),
+        if_neg (show ¬ (decide (m < 2) && decide (n < 2)) = true by simp [h1]),
+        binCmp_fuel (n + 1) (n + m + 2) n m (by omega) (by omega),
+        binCmp_fuel (m + 1) (n + m + 2) m n (by omega) (by omega), binCmp_swap]
+    · rw [if_neg (show ¬ (decide (n < 2) && decide (m < 2)) = true by simp [h1]),
+        if_neg (show ¬ (decide (m < 2) && decide (n < 2)) = true by simp [h1]),
+        binCmp_fuel (n + 1) (n + m + 2) n m (by omega) (by omega),
+        binCmp_fuel (m + 1) (n + m + 2) m n (by omega) (by omega), binCmp_swap]
+  · rw [if_pos (show numSize n ≠ numSize m from hs),
+      if_pos (show numSize m ≠ numSize n from fun e => hs e.symm), natCompare_swap]
+
+theorem leafI_swap (a b : IExp) : (leafI a b).swap = leafI b a := by
+  cases a <;> cases b <;> simp only [leafI, ordThen_swap, baseCmp_swap, numCmp_swap] <;> rfl
+
+/-- Comparing two monomial bodies the other way round gives the swapped answer. -/
+theorem bodyCmp_swap : ∀ a b : IExp, (bodyCmp a b).swap = bodyCmp b a := by
+  intro a
+  induction a with
+  | mul x y ihx ihy =>
+    intro b
+    cases b with
+    | mul x' y' => simp only [bodyCmp, ordThen_swap, natCompare_swap, ihx, ihy]
+    | _ => simp only [bodyCmp, ordThen_swap, natCompare_swap, leafI_swap]
+  | _ => intro b; cases b <;> simp only [bodyCmp, ordThen_swap, natCompare_swap, leafI_swap]
+
+theorem ordThen_eq_eq {a b : Ordering} : ordThen a b = .eq ↔ a = .eq ∧ b = .eq := by
+  cases a <;> cases b <;> simp [ordThen]
+
+theorem binCmp_eq : ∀ (f n m : Nat), n < f → binCmp f n m = .eq → n = m := by
+  intro f
+  induction f with
+  | zero => intro n m h; omega
+  | succ f ih =>
+    intro n m h he
+    simp only [binCmp] at he
+    by_cases h1 : n < 2
+    · simp only [h1, decide_true, Bool.true_or, if_true, Nat.compare_eq_eq] at he; exact he
+    · by_cases h2 : m < 2
+      · simp only [h2, decide_true, Bool.or_true, if_true, Nat.compare_eq_eq] at he; exact he
+      · simp only [h1, h2, decide_false, Bool.or_false, Bool.false_eq_true, if_false] at he
+        cases hc : compare (n % 2) (m % 2) with
+        | lt => rw [hc] at he; cases he
+        | gt => rw [hc] at he; cases he
+        | eq =>
+          rw [hc] at he
+          have hd := Nat.compare_eq_eq.1 hc
+          have := ih (n / 2) (m / 2) (by omega) he
+          omega
+
+theorem numCmp_eq (n m : Nat) (h : numCmp n m = .eq) : n = m := by
+  unfold numCmp at h
+  by_cases hs : numSize n = numSize m
+  · rw [if_neg (show ¬ (numSize n ≠ numSize m) from fun h => h hs)] at h
+    by_cases hb : (decide (n < 2) && decide (m < 2)) = true
+    · rw [if_pos hb, Nat.compare_eq_eq] at h; exact h.symm
+    · rw [if_neg hb] at h; exact binCmp_eq (n + 1) n m (by omega) h
+  · rw [if_pos (show numSize n ≠ numSize m from hs), Nat.compare_eq_eq] at h; exact absurd h hs
+
+/-- integer monomial bodies: `x ^ e` with an atomic base, and products of bodies -/
+def isTreeI : IExp → Bool
+  | .pow (.atom _ _) _ => true
+  | .mul a b => isTreeI a && isTreeI b
+  | _ => false
+
+theorem baseCmp_atom_eq (i s j s' : Nat) (h : baseCmp (.atom i s) (.atom j s') = .eq) :
+    IExp.atom i s = IExp.atom j s' := by
+  simp only [baseCmp, ordThen_eq_eq, Nat.compare_eq_eq] at h
+  rw [h.1, h.2]
+
+/-- `fast_compare` answers `eq` only on identical bodies. -/
+theorem bodyCmp_eq : ∀ a b : IExp, isTreeI a = true → isTreeI b = true → bodyCmp a b = .eq → a = b := by
+  intro a
+  induction a with
+  | mul x y ihx ihy =>
+    intro b ha hb h
+    simp only [isTreeI, Bool.and_eq_true] at ha
+    cases b with
+    | mul x' y' =>
+      simp only [isTreeI, Bool.and_eq_true] at hb
+      simp only [bodyCmp, ordThen_eq_eq] at h
+      rw [ihx x' ha.1 hb.1 h.2.2.1, ihy y' ha.2 hb.2 h.2.2.2]
+    | pow c e =>
+      simp only [bodyCmp, ordThen_eq_eq, clsI, Nat.compare_eq_eq] at h
+      omega
+    | _ => simp [isTreeI] at hb
+  | pow c e _ =>
+    intro d ha hd h
+    cases d with
+    | mul x y =>
+      simp only [bodyCmp, ordThen_eq_eq, clsI, Nat.compare_eq_eq] at h
+      omega
+    | pow c' e' =>
+      simp only [bodyCmp, ordThen_eq_eq, leafI] at h
+      cases c with
+      | atom i s =>
+        cases c' with
+        | atom j s' => rw [baseCmp_atom_eq i s j s' h.2.2.2.1, numCmp_eq e e' h.2.2.2.2]
+        | _ => simp [isTreeI] at hd
+      | _ => simp [isTreeI] at ha
+    | _ => simp [isTreeI] at hd
+  | atom i s => intro b ha; simp [isTreeI] at ha
+  | num z => intro b ha; simp [isTreeI] at ha
+  | add u v _ _ => intro b ha; simp [isTreeI] at ha
+  | sub u v _ _ => intro b ha; simp [isTreeI] at ha
+  | neg u _ => intro b ha; simp [isTreeI] at ha
+
+theorem bodyCmp_gt_iff (a b : IExp) : bodyCmp a b = .gt ↔ bodyCmp b a = .lt := by
+  rw [← bodyCmp_swap a b]; cases bodyCmp a b <;> simp [Ordering.swap]
+
+theorem bodyCmp_lt_iff (a b : IExp) : bodyCmp a b = .lt ↔ bodyCmp b a = .gt := by
+  rw [← bodyCmp_swap a b]; cases bodyCmp a b <;> simp [Ordering.swap]
+
 end Holpy.C10.IntN
